@@ -224,6 +224,8 @@ def r6(ctx, rep):
         want = frames.FRAME_OF[exp]
         mc, info = frames.enforce_clauses(m, lg.accesscls)
         rep.consult(*info['where'])
+        for pr in dict.fromkeys(info['problems']):
+            rep.finding(R, f'C04.R6/{lg.name}/model/{pr[:60]}', info['where'][0].split(' ')[0], f'{lg.name}.Model.Access', pr)
         got_r = frozenset(rs)
         ok = got_r == want and mc == want
         rep.instance(R, ok=ok, sample=dict(logic=lg.name, frame=exp, rules=sorted(c[0] for c in got_r),
